@@ -61,6 +61,7 @@ class Inbound:
         rdtype: dns.rdatatype.RdataType = dns.rdatatype.AXFR,
         serial: int | None = None,
         is_udp: bool = False,
+        tsig_required: bool = False,
     ):
         """Initialize an inbound zone transfer.
 
@@ -73,6 +74,10 @@ class Inbound:
 
         :param is_udp: Whether UDP is being used for this XFR.
         :type is_udp: bool
+        :param tsig_required: Whether the transfer was requested with TSIG.
+            If ``True``, the message which completes the transfer must itself
+            be signed; if it is not, an error is raised and nothing is applied.
+        :type tsig_required: bool
         """
         self.txn_manager = txn_manager
         self.txn: dns.transaction.Transaction | None = None
@@ -89,6 +94,7 @@ class Inbound:
             raise ValueError("rdtype is not IXFR or AXFR")
         self.serial = serial
         self.is_udp = is_udp
+        self.tsig_required = tsig_required
         _, _, origin = txn_manager.origin_information()
         if origin is None:
             raise ValueError("transaction manager must supply an origin for XFRs")
@@ -247,6 +253,13 @@ class Inbound:
             # get the proper "truncated" response
             #
             raise dns.exception.FormError("unexpected end of UDP IXFR")
+        if self.done and self.tsig_required and not message.had_tsig:
+            #
+            # The last message of a signed transfer must be signed, as
+            # otherwise its content (and that of any unsigned messages
+            # before it) has not been authenticated.
+            #
+            raise dns.exception.FormError("missing TSIG")
         if self.done and self.txn is not None:
             #
             # We commit only after the whole message has been checked, so
